@@ -24,6 +24,8 @@ import (
 //	garbage  answers with bytes that are not HTTP
 //	slow     sends the head announcing 1000 bytes and 10 bytes, stalls for Stall, then closes
 //	big      sends a 5 MiB body (for aborting downloads)
+//	deaf     accepts the connection and never reads from it (an upload larger than the socket
+//	         buffers gets stuck on the way to it)
 type FaultBackend struct {
 	// HealthyBody is the body of the healthy answer ("ok" if empty); set before traffic starts
 	HealthyBody string
@@ -122,6 +124,19 @@ func (fb *FaultBackend) loop(l net.Listener) {
 func (fb *FaultBackend) serve(c net.Conn, mode string, stall time.Duration) {
 	defer c.Close()
 	c.SetDeadline(time.Now().Add(60 * time.Second))
+	if mode == "deaf" {
+		// neither reads nor answers; gives up when the mode changes (or after 40 s)
+		for i := 0; i < 800; i++ {
+			fb.mu.Lock()
+			m, done := fb.mode, fb.done
+			fb.mu.Unlock()
+			if m != "deaf" || done {
+				return
+			}
+			time.Sleep(50 * time.Millisecond)
+		}
+		return
+	}
 	br := bufio.NewReader(c)
 	for {
 		// request head
